@@ -627,16 +627,21 @@ class HyASTCompiler:
     @builds_model(Integer, Float, Complex)
     def compile_numeric_literal(self, x):
         value = {Integer: int, Float: float, Complex: complex}[type(x)](x)
-        if repr(value).startswith("-"):
+        if repr(value).startswith("-") and not (
+                isinstance(value, complex) and value == 0):
             # Python has no negative literals, and `ast.unparse` prints
             # a negative constant without parentheses, so that
             # e.g. `(** -1 2)` would come out as `-1 ** 2`.
+            if isinstance(value, complex):
+                # `0 - 2j`, unlike `-2j`, has a positive zero for its
+                # real part, like the literal.
+                return asty.BinOp(x,
+                    left = asty.Constant(x, value = 0),
+                    op = ast.Sub(),
+                    right = asty.Constant(x, value = complex(0, -value.imag)))
             return asty.UnaryOp(x,
                 op = ast.USub(),
-                operand = asty.Constant(x, value =
-                    complex(0, -value.imag)
-                    if isinstance(value, complex)
-                    else -value))
+                operand = asty.Constant(x, value = -value))
         return asty.Constant(x, value = value)
 
     @builds_model(Symbol)
